@@ -189,11 +189,11 @@ SELECT a FROM plop
             let fixes = vec![LintFix {
                 edit_type: fix_type,
                 anchor: fix_point.unwrap(),
-                edit: std::iter::repeat_n(
-                    SegmentBuilder::newline(context.tables.next_id(), "\n"),
-                    num_newlines,
-                )
-                .collect_vec(),
+                // One segment per line break, each with its own id: fixes are applied
+                // to the tree by segment id.
+                edit: (0..num_newlines)
+                    .map(|_| SegmentBuilder::newline(context.tables.next_id(), "\n"))
+                    .collect_vec(),
                 source: Vec::new(),
             }];
 
